@@ -130,6 +130,11 @@ pub mod shrink {
             a.plan.evictions.clear();
             out.push(a);
         }
+        if sc.plan.reuse_vm {
+            let mut a = sc.clone();
+            a.plan.reuse_vm = false;
+            out.push(a);
+        }
         if sc.gas != GasSched::Default {
             let mut a = sc.clone();
             a.gas = GasSched::Default;
